@@ -174,6 +174,57 @@ Definition cvcase_model (c : cvcase) : cvdiff :=
       end
   end.
 
+(* ---- snapshot blocks: the structure prost decoded, and proto_snapshot_block_to_token_block's answer ---- *)
+Definition optkey_eqb (a b : option wkey) : bool :=
+  match a, b with Some x, Some y => Convert.wkey_eqb x y | None, None => true | _, _ => false end.
+
+Definition psnap_eqb (a b : psnap) : bool :=
+  optbytes_eqb (ps_context a) (ps_context b) && optN_eqb (ps_version a) (ps_version b)
+  && list_eqb ppred_eqb (ps_facts a) (ps_facts b) && list_eqb prule_eqb (ps_rules a) (ps_rules b)
+  && list_eqb pcheck_eqb (ps_checks a) (ps_checks b) && list_eqb pscope_eqb (ps_scopes a) (ps_scopes b)
+  && optkey_eqb (ps_external a) (ps_external b).
+
+Inductive svimpl :=
+| SVErr (e : cerr)
+| SVOk (b : iblock) (ext : option wkey) (back : psnap).   (* back = token_block_to_proto_snapshot_block *)
+
+Inductive svcase := SVCase (p : psnap) (tab : keytab) (impl : svimpl).
+
+Definition svcase_model (c : svcase) : cvdiff :=
+  match c with
+  | SVCase p tab impl =>
+      if negb (match ps_external p with
+               | Some k => match tab_canon tab (wk_alg k) (wk_bytes k) with Some _ => true | None => false end
+               | None => true
+               end) then CVOracle
+      else
+      match conv_snapshot_block (canon_of tab) p, impl with
+      | SErr e, SVErr e' => if cerr_eqb e e' then CVAgree else CVClass
+      | SErr _, SVOk _ _ _ => CVAccept false
+      | SOk _ _, SVErr _ => CVAccept true
+      | SOk m mk, SVOk i ik back =>
+          if negb (iblock_eqb m i && optkey_eqb mk ik) then CVValue
+          else if negb (psnap_eqb (unconv_snapshot_block i ik) back) then CVBack
+          else match conv_snapshot_block (fun a k => Some k) back with
+               | SOk m' mk' => if iblock_eqb m' i && optkey_eqb mk' ik then CVAgree else CVSelf
+               | SErr _ => CVSelf
+               end
+      end
+  end.
+
+Fixpoint sv_scan (i : N) (cs : list svcase) (acc : list (N * cvdiff)) : list (N * cvdiff) :=
+  match cs with
+  | [] => rev acc
+  | c :: cs' =>
+      match svcase_model c with
+      | CVAgree => sv_scan (i + 1) cs' acc
+      | d => sv_scan (i + 1) cs' ((i, d) :: acc)
+      end
+  end.
+
+Definition sv_failures (start : N) (cs : list svcase) : list (N * cvdiff) * N :=
+  (sv_scan start cs [], 0).
+
 Fixpoint cv_scan (i : N) (cs : list cvcase) (acc : list (N * cvdiff)) : list (N * cvdiff) :=
   match cs with
   | [] => rev acc
